@@ -109,12 +109,43 @@ func options(k optKind) *slog.HandlerOptions {
 		return &slog.HandlerOptions{Level: slogutil.LevelTrace, ReplaceAttr: func(g []string, a slog.Attr) slog.Attr { return slogutil.ReplaceLevel(g, slogutil.RemoveTime(g, a)) }}
 	case 4:
 		return &slog.HandlerOptions{Level: slog.LevelInfo, ReplaceAttr: slogutil.ReplaceLevel}
-	default:
+	case 5:
 		return &slog.HandlerOptions{AddSource: true, Level: slog.Level(-8)}
+	default:
+		// what slogutil.New documents for Format JSONHybrid: the level, "TRACE" as the name of LevelTrace and
+		// no time attribute unless AddTimestamp - written here independently of golibs' helpers
+		lvl, ts := viaNew(k)
+		return &slog.HandlerOptions{Level: lvl, ReplaceAttr: func(g []string, a slog.Attr) slog.Attr {
+			if len(g) > 0 {
+				return a
+			}
+			if a.Key == slog.TimeKey && !ts {
+				return slog.Attr{}
+			}
+			if l, ok := a.Value.Any().(slog.Level); ok && a.Key == slog.LevelKey && l == slog.Level(-8) {
+				a.Value = slog.StringValue("TRACE")
+			}
+			return a
+		}}
 	}
 }
 
-const nOpts = 6
+const nOpts = 10
+
+// viaNew gives the Config of the option sets that are built through slogutil.New.
+func viaNew(k optKind) (lvl slog.Level, addTimestamp bool) {
+	return []slog.Level{slog.Level(-8), slog.LevelInfo, slog.LevelDebug, slog.LevelWarn}[(k-6)%4], k%2 == 1
+}
+
+// mkHandler builds the handler under test for an option set: directly, or (sets 6..9) the way applications get
+// it, from slogutil.New with Format JSONHybrid.
+func mkHandler(w io.Writer, k optKind) slog.Handler {
+	if k < 6 {
+		return slogutil.NewJSONHybridHandler(w, options(k))
+	}
+	lvl, ts := viaNew(k)
+	return slogutil.New(&slogutil.Config{Output: w, Format: slogutil.FormatJSONHybrid, Level: lvl, AddTimestamp: ts}).Handler()
+}
 
 func configured(o *slog.HandlerOptions) slog.Level {
 	if o == nil || o.Level == nil {
@@ -236,7 +267,7 @@ type seqCase struct {
 func runSeq(c seqCase) (what string, compared int) {
 	o := options(optKind(c.Opt))
 	rec := &plainRecorder{}
-	root := node{slogutil.NewJSONHybridHandler(rec, o), nil}
+	root := node{mkHandler(rec, optKind(c.Opt)), nil}
 	// Enabled
 	for l := slog.Level(-8); l <= 12; l++ {
 		compared++
@@ -362,9 +393,10 @@ func TestSequential(t *testing.T) {
 		rng := r.Rand(uint64(600 + w))
 		var n int64
 		for i := lo; i < hi; i++ {
-			o := options(optKind(rng.IntN(nOpts)))
+			ok := optKind(rng.IntN(nOpts))
+			o := options(ok)
 			rec := &plainRecorder{}
-			nd := node{slogutil.NewJSONHybridHandler(rec, o), nil}
+			nd := node{mkHandler(rec, ok), nil}
 			for k := rng.IntN(3); k > 0; k-- {
 				var as []slog.Attr
 				for j := rng.IntN(4); j > 0; j-- {
@@ -415,7 +447,7 @@ func TestWriterFault(t *testing.T) {
 		for at := 1; at <= 3 && !stuck; at++ {
 			o := options(optKind(opt))
 			w := &panicOnce{at: at}
-			root := node{slogutil.NewJSONHybridHandler(w, o), nil}
+			root := node{mkHandler(w, optKind(opt)), nil}
 			nodes := []node{root, derive(root, attrsN(2, opt)), derive(derive(root, attrsN(1, at)), attrsN(2, at+1))}
 			for i := 0; i < 6; i++ {
 				nd := nodes[i%len(nodes)]
@@ -519,7 +551,7 @@ func TestReentrant(t *testing.T) {
 				for via := 0; via < 4 && !stuck; via++ { // the inner record goes through: root, sibling, the same handler, a child of it
 					o := options(optKind(opt))
 					w := &plainRecorder{}
-					root := node{slogutil.NewJSONHybridHandler(w, o), nil}
+					root := node{mkHandler(w, optKind(opt)), nil}
 					sib := derive(root, attrsN(1, opt+1))
 					armed := &atomic.Bool{}
 					inner := mkRecord(slog.LevelError, "inner", 1, how+via, false)
@@ -636,7 +668,7 @@ func TestConcurrent(t *testing.T) {
 		} else {
 			w = counting
 		}
-		root := node{slogutil.NewJSONHybridHandler(w, o), nil}
+		root := node{mkHandler(w, optKind(round%nOpts)), nil}
 		// a small tree: root, two children, four grandchildren
 		nodes := []node{root}
 		for _, p := range []node{root} {
